@@ -514,7 +514,7 @@ Record step := mk_step {
   st_in : commit;
   st_out : wres;              (* Store::write_commit *)
   st_read : rout;             (* Backend::read_commit(id) in a fresh store *)
-  st_cached : bool;           (* Store::get_commit(id) on the writing store = returned *)
+  st_cached : bool;           (* Store::get_commit(id) on the writing store, right after the write, = returned *)
   st_hashed : bytes }.        (* simple backend: bytes fed to the hasher for the returned commit *)
 Record case := mk_case {
   k_git : bool;
